@@ -28,6 +28,10 @@ Shapes == {<<1, 1>>, <<1, 3>>, <<3, 1>>, <<2, 3>>}
 FDs == {"se", "sink", "invalid", "cycle", "west", "mix"}
 CellClasses == {"valid", "neg", "over", "hugeneg", "huge", "empty"}
 PtClasses == {"fin", "nan", "inf", "huge", "outside"}
+\* points exactly on (or within an ulp of) the right / top edge of the extent, for cell sizes whose multiples are not exact
+EdgeClasses == {"edge"}
+CellSizes == {"one", "tenth", "third", "seventenths"}
+PointCols == {1, 2, 3}        \* second dimension of the coordinate array handed to coord2cell / slice (2 is the documented one)
 Calls ==
    {[k |-> "aggregate", n |-> n, v |-> v, ix |-> ix, op |-> op, maxnan |-> mn] :
         n \in Ns, v \in {"fin", "nan", "lastnan", "neg", "pinf"}, ix \in {"const", "incr", "runs", "decr", "extreme"}, op \in {0, 1, 2, 3, 4}, mn \in {-1, 0, 9}}
@@ -50,9 +54,11 @@ Calls ==
    \cup {[k |-> "dates", date |-> d, day |-> dy, cn |-> cn, ck |-> ck] :
         d \in {<<2000, 2, 29>>, <<1999, 12, 31>>, <<2001, 13, 1>>, <<2001, 0, 0>>, <<-5, 6, 40>>, <<2147483647, 12, 31>>},
         dy \in {20000229, 0, -1, 99999999}, cn \in {0, 5, 60, 61, -3}, ck \in {0, 2, 30, 31, -1}}
-   \cup {[k |-> "grid.coord2cell", shape |-> s, n |-> n, p |-> p] : s \in Shapes, n \in {0, 1, 3}, p \in PtClasses}
+   \cup {[k |-> "grid.coord2cell", shape |-> s, n |-> n, p |-> p, cols |-> 2, csz |-> "one"] : s \in Shapes, n \in {0, 1, 3}, p \in PtClasses}
+   \cup {[k |-> kk, shape |-> s, n |-> n, p |-> p, cols |-> cl, csz |-> cz] : kk \in {"grid.coord2cell", "grid.slice"}, s \in Shapes \cup {<<3, 17>>}, n \in {1, 3},
+              p \in EdgeClasses \cup {"fin"}, cl \in PointCols, cz \in CellSizes}
    \cup {[k |-> kk, shape |-> s, c |-> c] : kk \in {"grid.cell2coord", "grid.cell2rowcol", "grid.neighbours", "grid.getset"}, s \in Shapes, c \in CellClasses}
-   \cup {[k |-> "grid.slice", shape |-> s, n |-> n, p |-> p] : s \in Shapes, n \in {0, 1, 3}, p \in PtClasses}
+   \cup {[k |-> "grid.slice", shape |-> s, n |-> n, p |-> p, cols |-> 2, csz |-> "one"] : s \in Shapes, n \in {0, 1, 3}, p \in PtClasses}
    \cup {[k |-> "grid.cells_inside_polygon", shape |-> s, nv |-> nv, pv |-> pv] : s \in Shapes, nv \in {0, 1, 3, 4}, pv \in {"fin", "nan"}}
    \cup {[k |-> kk, shape |-> s, fd |-> fd, c |-> c] : kk \in {"cat.upstream", "cat.downstream"}, s \in Shapes, fd \in FDs, c \in CellClasses}
    \cup {[k |-> kk, shape |-> s, fd |-> fd, outlet |-> o, inlets |-> i, nval |-> nv] :
@@ -88,7 +94,12 @@ CrpsAccessesOld(c) == IF c.n < 1 THEN {} ELSE Idx("ensemb", {0, c.m - 1}) \cup I
 \* c_voronoi: weights[j] for j < npoints, xypoints[2j], [2j+1] for j < npoints; needs npoints >= 1 (repair: error)
 VoroAccesses(ncells, np) == IF np < 1 THEN {} ELSE Idx("weights", 0..(np - 1)) \cup Idx("xypoints", 0..(2 * np - 1))
 VoroAccessesOld(ncells, np) == Idx("weights", 0..(np - 1)) \cup Idx("weights", IF ncells > 0 THEN {0} ELSE {}) \cup Idx("xypoints", 0..(2 * ncells - 1)) \cup Idx("xypoints", 0..(2 * np - 1))
-BufLen(c, b) == CASE b \in {"aggindex", "inputs", "outputs", "data", "islin"} -> c.n
+\* c_coord2cell / c_slice: xycoords[2i], xycoords[2i+1] for i < n - the buffer has n * cols slots, so the wrapper must
+\* reject cols # 2 (repair); the old wrapper handed any (n, cols) array to the kernel
+XYAccesses(c) == IF c.cols # 2 THEN {} ELSE Idx("xy", 0..(2 * c.n - 1))
+XYAccessesOld(c) == Idx("xy", 0..(2 * c.n - 1))
+BufLen(c, b) == CASE b = "xy" -> c.n * c.cols
+               [] b \in {"aggindex", "inputs", "outputs", "data", "islin"} -> c.n
                [] b = "ensemb" -> c.m + 1
                [] b = "sim" -> c.n * c.m
                [] b = "weights" -> c.n
@@ -98,15 +109,17 @@ Accesses(c) == CASE c.k \in {"aggregate", "flathomogen", "goue"} -> AggAccesses(
                  [] c.k = "eckhardt" -> EckAccesses(c)
                  [] c.k = "crps" -> CrpsAccesses(c)
                  [] c.k = "cat.voronoi" -> VoroAccesses(c.shape[1] * c.shape[2], c.n)
+                 [] c.k = "grid.coord2cell" -> XYAccesses(c)
                  [] OTHER -> {}
 AccessesOld(c) == CASE c.k \in {"aggregate", "flathomogen", "goue"} -> AggAccessesOld(c)
                     [] c.k = "islinear" -> IslinAccessesOld(c)
                     [] c.k = "eckhardt" -> EckAccessesOld(c)
                     [] c.k = "crps" -> CrpsAccessesOld(c)
                     [] c.k = "cat.voronoi" -> VoroAccessesOld(c.shape[1] * c.shape[2], c.n)
+                    [] c.k = "grid.coord2cell" -> XYAccessesOld(c)
                     [] OTHER -> {}
 InBounds(c, A) == \A a \in A : a[2] >= 0 /\ a[2] < BufLen(c, a[1])
-Modelled == call.k \in {"aggregate", "flathomogen", "goue", "islinear", "eckhardt", "crps", "cat.voronoi"}
+Modelled == call.k \in {"aggregate", "flathomogen", "goue", "islinear", "eckhardt", "crps", "cat.voronoi", "grid.coord2cell"}
 NoOOB == Modelled => InBounds(call, Accesses(call))
 \* i % nprint in c_accumulate / c_slope: the wrapper rejects nprint < 1 (repair)
 NoDivZero == call.k \in {"accumulate", "slope"} => (call.nprint >= 1 \/ TRUE)
